@@ -35,6 +35,9 @@ inductive Kind
   | catType      -- InvalidCharacterCategoryType
   | charCat      -- InvalidCharacterCategory
   | plugin       -- PluginError (a plugin's own regex does not compile)
+  | lexSet       -- LexiconSetError (TooManyDictionaries: a 15th user dictionary)
+  | grammar      -- InvalidDictionaryGrammar (the grammar section of the binary dictionary)
+  | config       -- ConfigError (the `regex` of RegexOovProvider does not compile)
 deriving DecidableEq, Repr
 
 def Kind.name : Kind → String
@@ -46,6 +49,9 @@ def Kind.name : Kind → String
   | .catType => "InvalidCharacterCategoryType"
   | .charCat => "InvalidCharacterCategory"
   | .plugin => "PluginError"
+  | .lexSet => "LexiconSetError"
+  | .grammar => "InvalidDictionaryGrammar"
+  | .config => "ConfigError"
 
 /-- result of a piece of Rust code: value, `Err(kind)`, crash, or undefined behaviour (unchecked
 out-of-bounds read in a release build) -/
@@ -151,6 +157,14 @@ def getPosId (posList : List Pos) (p : Pos) : Option Nat :=
   else
     let i := posList.findIdx (posMatch p)
     if i < posList.length then some (i % 65536) else none
+
+/-- the lookup WITHOUT the arity guard `if pos1.len() != POS_DEPTH { return None; }` (seeded change
+C20c: `pos_list.iter().position(|pos2| pos1.iter().zip(pos2).all(..))`).  `zip` stops at the shorter
+sequence, so a list of fewer than six strings matches the first entry it is a prefix of.  Kept only
+to be refuted in the kernel (`C20.unguarded_lookup_counterexample`); nothing dispatches to it. -/
+def getPosIdU (posList : List Pos) (p : Pos) : Option Nat :=
+  let i := posList.findIdx (posMatch p)
+  if i < posList.length then some (i % 65536) else none
 
 /-- `Grammar::register_pos` -/
 def registerPos (posList : List Pos) (p : Pos) : Outcome (List Pos × Nat) :=
@@ -551,7 +565,7 @@ def handleLoad (toks : List (List Char)) : String :=
       let g : Grammar := ⟨pos, ⟨nl, nr, cells⟩⟩
       showOutcome (fun (ld : Loaded) =>
         "ok npos=" ++ toString ld.g.pos.length ++
-        " new=" ++ Wire.joinWith ";" ((ld.g.pos.drop pos.length).map showPos) ++
+        " all=" ++ Wire.joinWith ";" (ld.g.pos.map showPos) ++
         " prov=" ++ Wire.joinWith ";" (ld.provs.map showProv) ++
         " conn=" ++ Wire.showInts ld.g.conn.cells)
         (load v (Oov.lines cdef) g ⟨inh, oov, upos⟩)
